@@ -270,6 +270,35 @@ func runC15(args []string) int {
 			}
 			r.hist(fmt.Sprintf("kind%d_array%v", f.T.Kind(), f.T.Array()))
 		}
+		// the entry of field 253 is also consulted outside parseDataFields: a compressed-timestamp header stores
+		// the reference time through it (struct index of the timestamp member differs between messages)
+		for _, f := range mi.Fields {
+			if f.Num != 253 || f.T.Kind() != types.TimeUTC {
+				continue
+			}
+			for arch := byte(0); arch < 2; arch++ {
+				ts := uint32(0x30000000 + 977*uint32(mn) + uint32(arch))
+				s := &stream{HdrSize: 14, Proto: 0x10, Profile: 2115, HdrCRC: "ok"}
+				s.Records = append(s.Records,
+					record{Kind: "D", Local: 0, Gmn: 0, Fields: []fieldDefS{{0, 1, 0}}},
+					record{Kind: "M", Local: 0, Pay: []byte{ft}},
+					record{Kind: "D", Local: 2, Arch: arch, Gmn: uint16(fit.MesgNumRecord), Fields: []fieldDefS{{253, 4, 0x86}}},
+					record{Kind: "M", Local: 2, Pay: put32(arch == 1, ts)},
+					record{Kind: "D", Local: 1, Arch: arch, Gmn: mn},
+					record{Kind: "Z", Local: 1, Offset: byte((ts + 5) % 32)})
+				s.fillHex()
+				c := streamCase{s, readerSpec{Data: s.bytes()}}
+				impl, _, _, ok := decodeAndJudge(r, w, c, optSet{}, "compressed_", true)
+				if !ok {
+					return 2
+				}
+				if impl.Panic != "" {
+					r.specFail("decode_panic", fmt.Sprintf("message %d: a compressed-timestamp record panics: %s", mn, impl.Panic), map[string]interface{}{"entry": "Decode", "input_hex": hexs(c.rs.Data), "mesgnum": mn})
+				}
+				r.count(fmt.Sprintf("compressed.%d.%d", mn, arch), hosted)
+				r.hist("compressed_timestamp_streams")
+			}
+		}
 		// every struct field is covered
 		for i := 0; i < inval.NumField(); i++ {
 			if _, ok := seenSindex[i]; !ok {
